@@ -255,18 +255,35 @@ Notation st := (gsm (list re)).
 Definition push (l : st) (c : Z) : option (Z * st) :=
   g_push_rune (list re) (re_auto modes) (re_start modes) (length modes) l c.
 
-(* what PushRune answers when it does not consume: run the selected actions,
-   fall through to EOF (fresh state, end of input) or error *)
-Definition stuck_result (acts : list (Z * Z)) (l : st) (c : Z) : option (Z * st) :=
+(* what PushRune answers when it does not consume.
+   - at a token boundary (nothing read: g_fresh) no action runs -- an empty
+     match is not a token --: lexEOF iff the input is exhausted and no
+     accumulated text is pending, otherwise lexError; the state is unchanged;
+   - after a non-empty run: the selected actions, falling through to lexError *)
+Definition boundary_result (l : st) (c : Z) : option (Z * st) :=
+  Some (if (c =? -1) && negb (g_accum l) then lexEOF else lexError, l).
+
+Definition act_result (acts : list (Z * Z)) (l : st) : option (Z * st) :=
   match g_actions (list re) (re_start modes) (length modes) acts l with
   | GCrash _ => None
   | GReturn _ code l' => Some (code, l')
-  | GFall _ l' => if g_fresh l' && (c =? -1) then Some (lexEOF, l') else Some (lexError, l')
+  | GFall _ l' => Some (lexError, l')
   end.
+
+Definition stuck_result (acts : list (Z * Z)) (l : st) (c : Z) : option (Z * st) :=
+  if g_fresh l then boundary_result l c else act_result acts l.
 
 (* the machine is in mode m, has read exactly u since the last token boundary *)
 Definition in_state (l : st) (u : list Z) : Prop :=
   g_mode l = m /\ g_state l = der rules u /\ g_fresh l = is_nil u.
+
+Lemma stuck_result_nil : forall acts l c,
+  in_state l [] -> stuck_result acts l c = boundary_result l c.
+Proof. intros acts l c [_ [_ Hf]]. unfold stuck_result. rewrite Hf. reflexivity. Qed.
+
+Lemma stuck_result_cons : forall acts l c x u,
+  in_state l (x :: u) -> stuck_result acts l c = act_result acts l.
+Proof. intros acts l c x u [_ [_ Hf]]. unfold stuck_result. rewrite Hf. reflexivity. Qed.
 
 Lemma g_actions_code : forall acts (l l' : st) code,
   g_actions (list re) (re_start modes) (length modes) acts l = GReturn _ code l' ->
@@ -285,14 +302,52 @@ Proof.
   apply (IH _ _ _ H).
 Qed.
 
+(* falling through the action list leaves the fresh flag alone *)
+Lemma g_actions_fall_fresh : forall acts (l l' : st),
+  g_actions (list re) (re_start modes) (length modes) acts l = GFall _ l' ->
+  g_fresh l' = g_fresh l.
+Proof.
+  induction acts as [|[ty p] acts IH]; intros l l' H; cbn [g_actions] in H.
+  - injection H as <-. reflexivity.
+  - destruct (ty =? 1).
+    { destruct ((p <? 0) || (Z.of_nat (length modes) <=? p)); [discriminate H|].
+      apply IH in H. exact H. }
+    destruct (ty =? 2).
+    { destruct (g_stack l) as [|m' s']; [discriminate H|]. apply IH in H. exact H. }
+    destruct (ty =? 3); [discriminate H|].
+    destruct (ty =? 4); [discriminate H|].
+    destruct (ty =? 5); [discriminate H|].
+    apply (IH _ _ H).
+Qed.
+
 Lemma stuck_not_consume : forall acts l c code l',
   stuck_result acts l c = Some (code, l') -> code <> lexConsume.
 Proof.
-  intros acts l c code l' H. unfold stuck_result in H.
-  destruct (g_actions (list re) (re_start modes) (length modes) acts l) as [code0 l0|l0|] eqn:E.
-  - injection H as <- _. apply (g_actions_code acts l l0 code0 E).
-  - destruct (g_fresh l0 && (c =? -1)); injection H as <- _; unfold lexEOF, lexError, lexConsume; lia.
-  - discriminate H.
+  intros acts l c code l' H. unfold stuck_result, boundary_result, act_result in H.
+  destruct (g_fresh l).
+  - injection H as <- _. destruct ((c =? -1) && negb (g_accum l)); unfold lexEOF, lexError, lexConsume; lia.
+  - destruct (g_actions (list re) (re_start modes) (length modes) acts l) as [code0 l0|l0|] eqn:E.
+    + injection H as <- _. apply (g_actions_code acts l l0 code0 E).
+    + injection H as <- _. unfold lexError, lexConsume. lia.
+    + discriminate H.
+Qed.
+
+(* the shape of the non-consuming branch of PushRune *)
+Lemma push_stuck_shape : forall acts (l : st) c,
+  match (if g_fresh l then GFall (list re) l
+         else g_actions (list re) (re_start modes) (length modes) acts l) with
+  | GCrash _ => None
+  | GReturn _ code l' => Some (code, l')
+  | GFall _ l' =>
+    if g_fresh l' && (c =? -1) && negb (g_accum l') then Some (lexEOF, l') else Some (lexError, l')
+  end = stuck_result acts l c.
+Proof.
+  intros acts l c. unfold stuck_result, boundary_result, act_result.
+  destruct (g_fresh l) eqn:Ef.
+  - rewrite Ef. cbn [andb]. destruct ((c =? -1) && negb (g_accum l)); reflexivity.
+  - destruct (g_actions (list re) (re_start modes) (length modes) acts l) as [code0 l0|l0|] eqn:E;
+      try reflexivity.
+    rewrite (g_actions_fall_fresh acts l l0 E), Ef. reflexivity.
 Qed.
 
 (* G5c, one step: the next character is consumed iff the run stays viable *)
@@ -300,7 +355,7 @@ Theorem ref_step_consume : forall u c l,
   wf_rules rules -> in_state l u -> ~ ng_match rules u ->
   in_unicode c -> viable rules (u ++ [c]) ->
   push l c = Some (lexConsume,
-                   Build_gsm (list re) (g_token l) (der rules (u ++ [c])) false m (g_stack l)).
+                   Build_gsm (list re) (g_token l) (der rules (u ++ [c])) false (g_accum l) m (g_stack l)).
 Proof.
   intros u c l Hwf [Hmode [Hstate Hfresh]] Hng Hc Hv.
   unfold push, g_push_rune, re_auto. rewrite Hmode, Hstate.
@@ -318,7 +373,7 @@ Theorem ref_step_stuck : forall u c l acts,
   push l c = stuck_result acts l c.
 Proof.
   intros u c l acts Hwf [Hmode [Hstate Hfresh]] Hng Hc Hsel.
-  unfold push, g_push_rune, re_auto, stuck_result. rewrite Hmode, Hstate.
+  unfold push, g_push_rune, re_auto. rewrite Hmode, Hstate.
   destruct (v_flag (re_view rules (der rules u))) eqn:Ef.
   { exfalso. apply Hng. apply view_flag. exact Ef. }
   assert (Hl : lookup (list re) (v_trans (re_view rules (der rules u))) c = None).
@@ -326,7 +381,8 @@ Proof.
     rewrite (view_lookup rules (der rules u) c Hc), <- der_snoc.
     destruct (forallb is_empty (der rules (u ++ [c]))) eqn:E; [reflexivity|].
     exfalso. apply Hnv. apply (der_viable rules (u ++ [c]) Hwf). exact E. }
-  rewrite Hl. cbn [re_view v_acts]. rewrite (sel_acts_first rules u acts Hsel). reflexivity.
+  rewrite Hl. cbn [re_view v_acts]. rewrite (sel_acts_first rules u acts Hsel).
+  apply push_stuck_shape.
 Qed.
 
 (* G6: once a marked rule matches the text read so far, nothing more is
@@ -336,9 +392,10 @@ Theorem ref_step_ng : forall u c l acts,
   push l c = stuck_result acts l c.
 Proof.
   intros u c l acts [Hmode [Hstate Hfresh]] Hng Hsel.
-  unfold push, g_push_rune, re_auto, stuck_result. rewrite Hmode, Hstate.
+  unfold push, g_push_rune, re_auto. rewrite Hmode, Hstate.
   apply view_flag in Hng. rewrite Hng.
-  cbn [re_view v_acts]. rewrite (sel_acts_first rules u acts Hsel). reflexivity.
+  cbn [re_view v_acts]. rewrite (sel_acts_first rules u acts Hsel).
+  apply push_stuck_shape.
 Qed.
 
 Theorem ref_step_iff : forall u c l,
@@ -357,17 +414,36 @@ Proof.
   - intros Hv. eexists. apply (ref_step_consume u c l Hwf Hin Hng Hc Hv).
 Qed.
 
-(* no rule matches the run: error, or EOF at a token boundary at end of input *)
+(* no rule matches the run: error, or EOF at a token boundary at end of input
+   with no accumulated text pending *)
 Corollary ref_step_no_rule : forall u c l,
   wf_rules rules -> in_state l u -> ~ ng_match rules u ->
   c = -1 \/ (in_unicode c /\ ~ viable rules (u ++ [c])) ->
   no_match rules u ->
-  push l c = Some (if is_nil u && (c =? -1) then lexEOF else lexError, l).
+  push l c = Some (if is_nil u && (c =? -1) && negb (g_accum l) then lexEOF else lexError, l).
 Proof.
   intros u c l Hwf Hin Hng Hc Hnm.
   rewrite (ref_step_stuck u c l [] Hwf Hin Hng Hc (or_intror (conj Hnm eq_refl))).
-  unfold stuck_result. cbn [g_actions]. destruct Hin as [_ [_ Hfresh]]. rewrite Hfresh.
-  destruct (is_nil u && (c =? -1)); reflexivity.
+  unfold stuck_result, boundary_result, act_result. destruct Hin as [_ [_ Hfresh]]. rewrite Hfresh.
+  destruct u as [|x u]; cbn [is_nil andb g_actions]; reflexivity.
+Qed.
+
+(* at a token boundary no action runs, whatever the rules say about the empty
+   string: EOF iff end of input and nothing pending, else error; state unchanged *)
+Corollary ref_step_boundary : forall c l,
+  wf_rules rules -> in_state l [] ->
+  c = -1 \/ (in_unicode c /\ ~ viable rules [c]) \/ ng_match rules [] ->
+  push l c = Some (if (c =? -1) && negb (g_accum l) then lexEOF else lexError, l).
+Proof.
+  intros c l Hwf Hin Hc.
+  assert (Hgoal : push l c = stuck_result (first_acts rules (der rules [])) l c).
+  { destruct (v_flag (re_view rules (der rules []))) eqn:Ef.
+    - apply view_flag in Ef. apply (ref_step_ng [] c l _ Hin Ef (sel_acts_exists rules [])).
+    - assert (Hng : ~ ng_match rules []).
+      { intros H. apply view_flag in H. rewrite H in Ef. discriminate. }
+      apply (ref_step_stuck [] c l _ Hwf Hin Hng); [|apply sel_acts_exists].
+      destruct Hc as [Hc|[Hc|Hc]]; [left; exact Hc|right; exact Hc|contradiction]. }
+  rewrite Hgoal. apply (stuck_result_nil _ l c Hin).
 Qed.
 
 (* ---------- feeding a run of characters ---------- *)
@@ -391,7 +467,7 @@ Lemma run_consume : forall v u0 l,
   wf_rules rules -> in_state l u0 -> Forall in_unicode v -> viable rules (u0 ++ v) ->
   (forall v1 v2, v = v1 ++ v2 -> v2 <> [] -> ~ ng_match rules (u0 ++ v1)) ->
   exists l1, consume_all l v = Some l1 /\ in_state l1 (u0 ++ v) /\
-             g_token l1 = g_token l /\ g_stack l1 = g_stack l.
+             g_token l1 = g_token l /\ g_stack l1 = g_stack l /\ g_accum l1 = g_accum l.
 Proof.
   induction v as [|c v IH]; intros u0 l Hwf Hin Hchars Hv Hng.
   - exists l. rewrite app_nil_r. cbn [consume_all]. auto.
@@ -403,10 +479,10 @@ Proof.
     { rewrite <- (app_nil_r u0). apply (Hng [] (c :: v) eq_refl). discriminate. }
     rewrite (ref_step_consume u0 c l Hwf Hin Hng0 Hc Hv1).
     cbn [Z.eqb lexConsume].
-    set (l' := Build_gsm (list re) (g_token l) (der rules (u0 ++ [c])) false m (g_stack l)).
+    set (l' := Build_gsm (list re) (g_token l) (der rules (u0 ++ [c])) false (g_accum l) m (g_stack l)).
     assert (Hin' : in_state l' (u0 ++ [c])).
     { unfold in_state, l'. cbn [g_mode g_state g_fresh]. rewrite is_nil_snoc. auto. }
-    destruct (IH (u0 ++ [c]) l' Hwf Hin' (Forall_inv_tail Hchars)) as [l1 [H1 [H2 [H3 H4]]]].
+    destruct (IH (u0 ++ [c]) l' Hwf Hin' (Forall_inv_tail Hchars)) as [l1 [H1 [H2 [H3 [H4 H5]]]]].
     + rewrite <- app_assoc. exact Hv.
     + intros v1 v2 Hvv Hne. rewrite <- app_assoc. apply (Hng (c :: v1) v2); [|exact Hne].
       cbn [app]. rewrite Hvv. reflexivity.
@@ -431,7 +507,7 @@ Proof.
       assert (Hv1 : viable rules (u0 ++ [c])).
       { apply (ref_step_iff u0 c l Hwf Hin Hng0 Hc). exists l'. exact Ep. }
       rewrite (ref_step_consume u0 c l Hwf Hin Hng0 Hc Hv1) in Ep. injection Ep as <-.
-      set (l2 := Build_gsm (list re) (g_token l) (der rules (u0 ++ [c])) false m (g_stack l)) in *.
+      set (l2 := Build_gsm (list re) (g_token l) (der rules (u0 ++ [c])) false (g_accum l) m (g_stack l)) in *.
       assert (Hin2 : in_state l2 (u0 ++ [c])).
       { unfold in_state, l2. cbn [g_mode g_state g_fresh]. rewrite is_nil_snoc. auto. }
       apply (proj1 (IH (u0 ++ [c]) l2 Hwf Hg Hin2 (Forall_inv_tail Hchars) Hv1)).
@@ -439,7 +515,7 @@ Proof.
     + intros Hv.
       assert (Hv1 : viable rules (u0 ++ [c])) by (apply (viable_prefix rules _ v Hv)).
       rewrite (ref_step_consume u0 c l Hwf Hin Hng0 Hc Hv1). cbn [Z.eqb lexConsume].
-      set (l2 := Build_gsm (list re) (g_token l) (der rules (u0 ++ [c])) false m (g_stack l)).
+      set (l2 := Build_gsm (list re) (g_token l) (der rules (u0 ++ [c])) false (g_accum l) m (g_stack l)).
       assert (Hin2 : in_state l2 (u0 ++ [c])).
       { unfold in_state, l2. cbn [g_mode g_state g_fresh]. rewrite is_nil_snoc. auto. }
       apply (proj2 (IH (u0 ++ [c]) l2 Hwf Hg Hin2 (Forall_inv_tail Hchars) Hv1)). exact Hv.
@@ -448,11 +524,14 @@ Qed.
 (* G5c.  Greedy mode, the machine at a token boundary l0, input s.  Let u be
    the longest prefix of s that is still a prefix of some match of the mode.
    Then the machine answers lexConsume on every character of u; on the next
-   character (-1 at the end of s) it does not consume: it runs the actions of
-   the earliest-declared rule matching exactly u, and if there is none it
-   answers lexError (lexEOF when nothing was read and the input is exhausted:
-   see ref_step_no_rule).  Moreover a prefix of s is consumed completely iff it
-   is viable. *)
+   character c (-1 at the end of s) it does not consume:
+   - if u is not empty it runs the actions of the earliest-declared rule
+     matching exactly u, and answers lexError if they fall through, in
+     particular if no rule matches u (acts = []);
+   - if u is empty (nothing can be read at this boundary) no action runs, an
+     empty match is not a token: the answer is lexEOF iff c = -1 and no
+     accumulated text is pending, otherwise lexError, the state unchanged.
+   Moreover a prefix of s is consumed completely iff it is viable. *)
 Theorem ref_consumes_longest_viable : forall s u rest l0 acts,
   wf_rules rules -> greedy rules -> Forall in_unicode s ->
   in_state l0 [] ->
@@ -461,8 +540,12 @@ Theorem ref_consumes_longest_viable : forall s u rest l0 acts,
   sel_acts rules u acts ->
   exists l1,
     consume_all l0 u = Some l1 /\ in_state l1 u /\
-    g_token l1 = g_token l0 /\ g_stack l1 = g_stack l0 /\
+    g_token l1 = g_token l0 /\ g_stack l1 = g_stack l0 /\ g_accum l1 = g_accum l0 /\
     push l1 (next_char rest) = stuck_result acts l1 (next_char rest) /\
+    (u <> [] -> push l1 (next_char rest) = act_result acts l1) /\
+    (u = [] -> l1 = l0 /\
+               push l1 (next_char rest) =
+               Some (if (next_char rest =? -1) && negb (g_accum l0) then lexEOF else lexError, l0)) /\
     (forall code l2, push l1 (next_char rest) = Some (code, l2) -> code <> lexConsume) /\
     (forall u' rest', s = u' ++ rest' ->
        ((exists l', consume_all l0 u' = Some l') <-> viable rules u')).
@@ -470,7 +553,7 @@ Proof.
   intros s u rest l0 acts Hwf Hg Hchars Hin0 Hs Hv Hmax Hsel.
   assert (Hcu : Forall in_unicode u).
   { rewrite Hs in Hchars. apply Forall_app in Hchars. apply Hchars. }
-  destruct (run_consume u [] l0 Hwf Hin0 Hcu Hv) as [l1 [H1 [H2 [H3 H4]]]].
+  destruct (run_consume u [] l0 Hwf Hin0 Hcu Hv) as [l1 [H1 [H2 [H3 [H4 H5]]]]].
   { intros v1 v2 _ _. apply greedy_no_ng. exact Hg. }
   cbn [app] in H2. exists l1.
   assert (Hstuck : push l1 (next_char rest) = stuck_result acts l1 (next_char rest)).
@@ -481,8 +564,12 @@ Proof.
     - apply (Hmax c rest' eq_refl). }
   assert (Hpre : forall u' rest', s = u' ++ rest' -> Forall in_unicode u').
   { intros u' rest' Hs'. rewrite Hs' in Hchars. apply Forall_app in Hchars. apply Hchars. }
-  split; [exact H1|]. split; [exact H2|]. split; [exact H3|]. split; [exact H4|].
-  split; [exact Hstuck|]. split.
+  split; [exact H1|]. split; [exact H2|]. split; [exact H3|]. split; [exact H4|]. split; [exact H5|].
+  split; [exact Hstuck|]. split; [|split; [|split]].
+  - intros Hne. rewrite Hstuck. destruct u as [|x u0]; [congruence|].
+    apply (stuck_result_cons acts l1 _ x u0 H2).
+  - intros ->. cbn [consume_all] in H1. injection H1 as <-. split; [reflexivity|].
+    rewrite Hstuck. apply (stuck_result_nil acts l0 _ H2).
   - intros code l2 Hp. rewrite Hstuck in Hp. apply (stuck_not_consume _ _ _ _ _ Hp).
   - intros u' rest' Hs'.
     apply (consume_iff u' [] l0 Hwf Hg Hin0 (Hpre u' rest' Hs') (viable_prefix rules [] u Hv)).
@@ -491,7 +578,10 @@ Qed.
 (* G6 at token level: with non-greedy marks, the token ends at the SHORTEST
    prefix u of the input that matches a marked rule exactly, provided the run
    stays viable up to there (u matching a rule, it is viable itself): every
-   character of u is consumed, and then nothing more, whatever follows. *)
+   character of u is consumed, and then nothing more, whatever follows: for
+   u <> [] the actions of the earliest rule matching u run (lexError if they
+   fall through); for u = [] (a marked rule matching the empty string) nothing
+   runs: lexEOF iff c = -1 and nothing pending, else lexError, state unchanged. *)
 Theorem ref_ng_shortest : forall u l0 acts,
   wf_rules rules -> Forall in_unicode u -> in_state l0 [] ->
   ng_match rules u ->
@@ -499,20 +589,26 @@ Theorem ref_ng_shortest : forall u l0 acts,
   sel_acts rules u acts ->
   exists l1,
     consume_all l0 u = Some l1 /\ in_state l1 u /\
-    g_token l1 = g_token l0 /\ g_stack l1 = g_stack l0 /\
+    g_token l1 = g_token l0 /\ g_stack l1 = g_stack l0 /\ g_accum l1 = g_accum l0 /\
     forall c, push l1 c = stuck_result acts l1 c /\
+              (u <> [] -> push l1 c = act_result acts l1) /\
+              (u = [] -> l1 = l0 /\
+                 push l1 c = Some (if (c =? -1) && negb (g_accum l0) then lexEOF else lexError, l0)) /\
               forall code l2, push l1 c = Some (code, l2) -> code <> lexConsume.
 Proof.
   intros u l0 acts Hwf Hchars Hin0 Hng Hshort Hsel.
   assert (Hv : viable rules ([] ++ u)).
   { destruct Hng as [i [r [Hi [_ Hm]]]]. exists i, r, []. rewrite app_nil_r. auto. }
-  destruct (run_consume u [] l0 Hwf Hin0 Hchars Hv Hshort) as [l1 [H1 [H2 [H3 H4]]]].
+  destruct (run_consume u [] l0 Hwf Hin0 Hchars Hv Hshort) as [l1 [H1 [H2 [H3 [H4 H5]]]]].
   cbn [app] in H2. exists l1.
-  split; [exact H1|]. split; [exact H2|]. split; [exact H3|]. split; [exact H4|].
-  intros c. split.
-  - apply (ref_step_ng u c l1 acts H2 Hng Hsel).
-  - intros code l2 Hp. rewrite (ref_step_ng u c l1 acts H2 Hng Hsel) in Hp.
-    apply (stuck_not_consume _ _ _ _ _ Hp).
+  split; [exact H1|]. split; [exact H2|]. split; [exact H3|]. split; [exact H4|]. split; [exact H5|].
+  intros c. pose proof (ref_step_ng u c l1 acts H2 Hng Hsel) as Hstuck.
+  split; [exact Hstuck|]. split; [|split].
+  - intros Hne. rewrite Hstuck. destruct u as [|x u0]; [congruence|].
+    apply (stuck_result_cons acts l1 c x u0 H2).
+  - intros ->. cbn [consume_all] in H1. injection H1 as <-. split; [reflexivity|].
+    rewrite Hstuck. apply (stuck_result_nil acts l0 c H2).
+  - intros code l2 Hp. rewrite Hstuck in Hp. apply (stuck_not_consume _ _ _ _ _ Hp).
 Qed.
 
 End Machine.
@@ -521,5 +617,7 @@ Print Assumptions ref_step_consume.
 Print Assumptions ref_step_stuck.
 Print Assumptions ref_step_ng.
 Print Assumptions ref_step_iff.
+Print Assumptions ref_step_no_rule.
+Print Assumptions ref_step_boundary.
 Print Assumptions ref_consumes_longest_viable.
 Print Assumptions ref_ng_shortest.
